@@ -10,7 +10,7 @@ lexicographic order (name key, owner, neighbour).  `nameRuns`/`boundaryEntries` 
 loop) cut the sorted list into consecutive blocks.
 -/
 
-namespace Splipy.MP
+namespace Splipy.MP.C18L
 
 section Stable
 variable {α : Type} (r : α → α → Prop) [DecidableRel r]
@@ -350,4 +350,36 @@ theorem internal_first (l pre post : List Face) (f : Face) (hs : (l.map (·.name
   | none => rfl
   | some x => rw [hgn] at this; simp [nameKeyLe] at this
 
-end Splipy.MP
+/-- the number of distinct names (other than `None`) of a name-ordered face list is the number of
+    entries of the `boundary` file -/
+theorem ofoam_declared (l : List Face) (hs : (l.map (·.name)).Pairwise nameKeyLe) :
+    ((l.map (·.name)).dedup.filter (·.isSome)).length = (boundaryEntries (nameRuns l) 0).length := by
+  have hA : ((l.map (·.name)).dedup.filter (·.isSome)).Nodup := (List.nodup_dedup _).filter _
+  have hB : ((boundaryEntries (nameRuns l) 0).map (fun e => some e.1)).Nodup := by
+    have := ofoam_entries_distinct l hs
+    have h2 := this.map (f := (some : String → Option String)) (fun a b h => Option.some.inj h)
+    rwa [List.map_map] at h2
+  have hperm : ((l.map (·.name)).dedup.filter (·.isSome)).Perm ((boundaryEntries (nameRuns l) 0).map (fun e => some e.1)) := by
+    rw [List.perm_ext_iff_of_nodup hA hB]
+    intro x
+    constructor
+    · intro hx
+      obtain ⟨hx1, hx2⟩ := List.mem_filter.1 hx
+      rw [List.mem_dedup] at hx1
+      cases x with
+      | none => simp at hx2
+      | some nm =>
+        obtain ⟨i, hi, hget⟩ := List.getElem_of_mem hx1
+        have : (l.map (·.name))[i]? = some (some nm) := by rw [List.getElem?_eq_getElem hi, hget]
+        obtain ⟨e, he, hen, -, -⟩ := ofoam_entry_cover l i nm this
+        exact List.mem_map.2 ⟨e, he, by rw [hen]⟩
+    · intro hx
+      obtain ⟨e, he, rfl⟩ := List.mem_map.1 hx
+      obtain ⟨hblock, hpos, -⟩ := ofoam_entry_block l e he
+      refine List.mem_filter.2 ⟨List.mem_dedup.2 ?_, rfl⟩
+      have hmem : some e.1 ∈ ((l.map (·.name)).drop e.2.2).take e.2.1 := by
+        rw [hblock]; exact List.mem_replicate.2 ⟨by omega, rfl⟩
+      exact List.mem_of_mem_drop (List.mem_of_mem_take hmem)
+  rw [hperm.length_eq, List.length_map]
+
+end Splipy.MP.C18L
